@@ -140,7 +140,7 @@ func VHarness_C14_ChunkStream() {
 
 // C14: a chunk stream with one byte altered anywhere after the header, or cut
 // short anywhere, is rejected by the stream validator.
-//vcheck: reach=altered,truncated,done workers=16
+//vcheck: props=C15 reach=altered,truncated,done workers=16
 func VHarness_C14_StreamCorruption() {
 	n := vLens[1+vChoose("n", 6)]
 	trunc := vBool("truncate")
